@@ -206,6 +206,9 @@ pub fn run(rc: &mut RunCtx) {
     // (1) component: full boundary grid, chunked into cases
     let mut chunk = 0;
     for &ccm in G16 {
+        if rc.miri() && ccm != 0 && ccm != 65535 {
+            continue;
+        }
         let id = format!("grid:client_cm={}", ccm);
         chunk += 1;
         if !rc.mine(&id) {
@@ -213,11 +216,17 @@ pub fn run(rc: &mut RunCtx) {
         }
         rc.begin(&id);
         let mut res = CaseResult::new(id);
+        let miri = rc.miri();
+        let mut stride = 0u64;
         for &scm in G16 {
             for &cfm in G32 {
                 for &sfm in G32 {
                     for &chb in GHB {
                         for &shb in GHB {
+                            stride += 1;
+                            if miri && stride % 509 != 0 {
+                                continue;
+                            }
                             check_component((ccm, cfm, chb), (scm, sfm, shb), &mut res);
                         }
                     }
@@ -230,7 +239,7 @@ pub fn run(rc: &mut RunCtx) {
     }
     rc.note("exhaustive_over", json!("boundary grid G16 x G16 x G32 x G32 x GHB x GHB (see harness/src/props/c15.rs)"));
     // (2) component: random pairs
-    let n = rc.n(200, 4000);
+    let n = if rc.miri() { 1 } else { rc.n(200, 4000) };
     for i in 0..n {
         let id = format!("randpairs:{}", i);
         if !rc.mine(&id) {
@@ -239,7 +248,7 @@ pub fn run(rc: &mut RunCtx) {
         rc.begin(&id);
         let mut res = CaseResult::new(id);
         let mut r = Rng::for_case(seed, 15, i);
-        for _ in 0..2000 {
+        for _ in 0..(if rc.miri() { 100 } else { 2000 }) {
             let c = (r.next() as u16, r.next() as u32 >> r.below(20), r.next() as u16);
             let s = (r.next() as u16, r.next() as u32 >> r.below(20), r.next() as u16);
             check_component(c, s, &mut res);
@@ -247,7 +256,7 @@ pub fn run(rc: &mut RunCtx) {
         rc.end(res);
     }
     // (3) end to end
-    let n = rc.n(40, 400);
+    let n = if rc.miri() { 0 } else { rc.n(40, 400) };
     for i in 0..n {
         let id = format!("e2e:{}", i);
         if !rc.mine(&id) {
